@@ -37,7 +37,9 @@ var c02Pins = []pin{
 	{"lfdRetType", "nf", `match(p0.Fvar.Ftype; FType_FFunc -> freturn(payload(FType_FFunc)); _ -> seq[PanicNow("LetFuncDef's fvar is not FFunc type.")] var:New_FType_FUnit)`, "the result type is the last target of the function's own type"},
 	{"unifyType", "nf", "#1(compositeTp(p0, p1))", "unification = relations produced by the structural composite"},
 	{"InferExpr", "nf", "seq[updateResolver(p0.resolver, collectExprRel(p1))] resolveExprType(p0.resolver, p1)", "a let-bound expression is inferred from its own constraints"},
-	{"updateResolver", "nf", "if(slice.IsEmpty(slice.Concat(slice.Map(updateResOne(p0, _), p1))), p0, updateResolver(p0, slice.Concat(slice.Map(updateResOne(p0, _), p1))))", "constraints are applied until no new relation appears (relations in list order)"},
+	{"updateResolver", "nf", "updateResolverD(p0, 0, p1)", "the worklist starts at round 0"},
+	{"updateResolverD", "nf", `seq[if((p1 > 1000), seq[PanicNow("Too deep unification, maybe cyclic type, give up")])] if(slice.IsEmpty(slice.Concat(slice.Map(updateResOne(p0, _), p2))), p0, updateResolverD(p0, (p1 + 1), slice.Concat(slice.Map(updateResOne(p0, _), p2))))`,
+		"constraints are applied until no new relation appears (relations in list order); the rounds are counted and bounded (a cyclic type ends in a diagnostic)"},
 	{"collectSlice", "nf", "if((slice.Length(p0) <= 1), emptyRels(), slice.Concat(slice.Map(unifyType(ExprToType(slice.Head(p0)), _), slice.Map(ExprToType, slice.Tail(p0)))))", "all elements of a slice literal are unified with the first"},
 	{"collectFunCall", "nf", `match(varRefVarType(p0.TargetFunc); FType_FFunc -> slice.Concat(slice.Map(unifyTupArg, slice.Zip(slice.Map(ExprToType, p0.Args), slice.Take(slice.Length(slice.Map(ExprToType, p0.Args)), fargs(payload(FType_FFunc)))))); _ -> seq[PanicNow("funcall with non func first arg, possibly TypeVar, NYI.")] emptyRels())`, "each supplied argument is unified with the parameter at the same position"},
 	// independent instantiation of generic functions
@@ -166,7 +168,7 @@ func checkC02(c *Ctx) {
 	// (c3)
 	checkFreshPerElement(c, f)
 	checkRelevantReviewedForms(c, f, "C02.z", "an inference primitive (type-variable generators, unification, the resolver, substitution, instantiation)",
-		primSet("psTypeVarGen", "psNewTypeVar", "tvgen2ftvgen", "tvcToTypeVarGen", "tdctxTVFAlloc", "unifyType", "unifyTupArg", "compositeTp", "compositeTpList", "InferExpr", "InferLfd", "updateResolver", "updateResOne",
+		primSet("psTypeVarGen", "psNewTypeVar", "tvgen2ftvgen", "tvcToTypeVarGen", "tdctxTVFAlloc", "unifyType", "unifyTupArg", "compositeTp", "compositeTpList", "InferExpr", "InferLfd", "updateResolver", "updateResolverD", "updateResOne",
 			"collectTVarFType", "collectTVarFTypeWithSet", "transTVFType", "transTVFTypeWithSet", "resolveOneTypeVar", "resolveType", "resolveExprType", "GenFunc", "GenFuncVar", "GenRecordType", "GenRecordTypeByTgen", "GenUnionType", "tpreplace", "hoistTVar", "New_FType_FTypeVar"), 40)
 	// (b)
 	tv := newTravAn(c, f)
